@@ -672,25 +672,58 @@ def polarity(run, P, rule):
 
 
 def _wrap(run, P):
+    """What a pass puts in the place of one statement, case by case (symbolic
+    evaluation of map_StatementWrapper with 1 - 3 statements coming back from
+    map_statement, each guarded or not)."""
+    from ..engine import symeval as se
+    from .c05 import ast_den
     f = P.func(f"{MOD}.ASTStatementRewriter.map_StatementWrapper")
-    src = ast.unparse(f.node)
-    raw = "StatementWrapper(stmt) for stmt in self.map_statement" in src
-    via = [n for n in ast.walk(f.node) if isinstance(n, ast.Call)
-           and dotted(n.func) in ("self.wrap_statement", "conditional_to_ast")]
-    run.ob("C07.guard", f, f.node, bool(via) and not raw,
-           construct="rewritten statements are wrapped through a condition-aware helper",
-           why="structured back ends never look at a statement's condition; wrapped "
-               "directly, the guards of introduced statements are silently dropped")
-    if any(dotted(n.func) == "self.wrap_statement" for n in via):
-        w = P.func(f"{MOD}.ASTStatementRewriter.wrap_statement")
-        from .util import split_by
-        _, wt_, wf_ = split_by(w.node, lambda t: t == "stmt.condition is not True", kinds=(ast.Return,))
-        ok = any(r_.value is not None and norm(r_.value) ==
-                 "IfThen(stmt.condition, StatementWrapper(stmt.copy(condition=True)))" for r_ in wt_) \
-            and bool(wf_)
-        run.ob("C07.guard", w, w.node, ok,
-               construct="condition is not True -> IfThen(condition, wrapper(copy(condition=True)))",
-               why="the guard must be expressed in the AST exactly once")
+    G = [("obj", f"guard{i}") for i in (1, 2, 3)]
+
+    def stmt(i, guarded):
+        return se.rec(f"statement{i}", condition=G[i - 1] if guarded else ("const", True),
+                      id=("obj", f"id{i}"), **{"@strict": ("const", True)})
+
+    import itertools
+    for k in (1, 2, 3):
+        for pattern in itertools.product((False, True), repeat=k):
+            sts = tuple(stmt(i + 1, g_) for i, g_ in enumerate(pattern))
+            ev = se.Evaluator(P, stubs={"self.map_statement": lambda args, kws, sts=sts: ("tuple", sts)})
+            expr = se.rec("node", statement=("obj", "original"))
+            outs = ev.outcomes(f, {f.params[0]: ("obj", "self"), f.params[1]: expr})
+            bad = None
+            for (kind, val), facts in outs:
+                if kind != "return":
+                    bad = f"raises {val}"
+                    break
+                den = ast_den(P, val)
+                if den is None:
+                    bad = f"returns {se.show(val)[:60]}, which is no tree of AST nodes"
+                    break
+                if len(den) != k:
+                    bad = f"{len(den)} statement(s) in the tree, {k} came back from map_statement"
+                    break
+                for (guards, loops, leaf), want, g_ in zip(den, sts, pattern):
+                    wg = ((G[sts.index(want)], 0),) if g_ else ()
+                    if leaf is None or leaf[0] != "rec" or leaf[1] != want[1]:
+                        bad = f"statement order / identity: found {se.show(leaf) if leaf else '?'} where {want[1]} belongs"
+                    elif guards != wg:
+                        bad = f"{want[1]} runs under {[se.show(x[0]) for x in guards]}, its guard is " \
+                              f"{[se.show(x[0]) for x in wg]}"
+                    elif g_ and se.rec_get(leaf, "condition") != ("const", True):
+                        bad = f"{want[1]} keeps its guard inside the conditional"
+                    elif se.rec_get(leaf, "id") != se.rec_get(want, "id"):
+                        bad = f"{want[1]} was re-built"
+                    if bad:
+                        break
+                if bad:
+                    break
+            run.ob("C07.guard", f, f.node, bad is None,
+                   construct=f"map_StatementWrapper: {k} statement(s), guarded: {list(pattern)}"
+                             + (f": {bad}" if bad else ""),
+                   why="structured back ends never look at a statement's condition: each guard "
+                       "must be expressed in the tree exactly once, around its own statement "
+                       "only, and the statements stay in the order the pass returned them")
 
 
 def _consumers(run, P):
